@@ -234,15 +234,15 @@ def step (st : St) (op impl : String) : St × Verdict :=
     | .ok _ =>
       if impl == "ok" then (st, .ok) else (st, .propfail "build-fails-on-accepted-input")
     | .error .fidTag =>
-      if impl == "ok" then (st, .skip) else (st, .propfail "build-fails-on-accepted-input class=fid-tag-value")
+      if impl == "ok" then (st, .ok) else (st, .propfail "build-fails-on-accepted-input class=fid-tag-value")
     | .error (.panic why) =>
       -- the model says the Go code panics on this input (outside `Accepts`)
       if impl == "ok" then (st, .diff ("panic " ++ why)) else (st, .ok)
   | ["nss"] =>
-    if st.known then (st, .skip) else
+    if st.known then (st, .ok) else
     (st, judge impl (renderList ((nsTable st.fs).map renderHex)) none "" false)
   | ["strs"] =>
-    if st.known then (st, .skip) else
+    if st.known then (st, .ok) else
     match (parseBracket impl).bind (·.mapM parseHex) with
     | none => (st, .bad)
     | some strs =>
@@ -251,7 +251,7 @@ def step (st : St) (op impl : String) : St × Verdict :=
       | .ok ix => ({ st with ix := some ix, keptIds := (st.fs.filter (kept st.fs)).map (·.id) }, .ok)
       | .error _ => (st, .diff "model-build-fails")
   | "blk" :: rest =>
-    if st.known then (st, .skip) else
+    if st.known then (st, .ok) else
     match parseBlkHeader rest, st.ix with
     | some (i, t, nss, bits, tb), some ix =>
       match ix.blocks[i]? with
@@ -263,7 +263,7 @@ def step (st : St) (op impl : String) : St × Verdict :=
         if hdr != mine then (st, .diff hdr) else (st, judge impl model none "" false)
     | _, _ => (st, .bad)
   | ["blocks"] =>
-    if st.known then (st, .skip) else
+    if st.known then (st, .ok) else
     match st.ix with
     | some ix => (st, judge impl (toString ix.blocks.length) none "" false)
     | none => (st, .bad)
@@ -280,7 +280,7 @@ def step (st : St) (op impl : String) : St × Verdict :=
         -- only the predicate can be evaluated: the model has no index for this class
         match spec with
         | some s => (st, if impl == s then .ok else .propfail "find-differs-from-source class=fid-tag-value")
-        | none => (st, .skip)
+        | none => (st, .ok)
       else
       match st.ix with
       | none => (st, .bad)
@@ -292,7 +292,7 @@ def step (st : St) (op impl : String) : St × Verdict :=
         (st, judge impl model spec "find-differs-from-source" false)
   | ["each"] =>
     match (parseBracket impl).bind (·.mapM parseID) with
-    | none => (st, if st.known then .skip else .propfail "each-fails")
+    | none => (st, if st.known then .ok else .propfail "each-fails")
     | some ids =>
       let keptIds := if st.known then (st.fs.filter (kept st.fs)).map (·.id) else st.keptIds
       let okPerm := ids.eraseDups.length == ids.length && ids.length == keptIds.length && keptIds.all (ids.contains ·)
@@ -302,7 +302,7 @@ def step (st : St) (op impl : String) : St × Verdict :=
       | some ix => (st, judge impl (renderList ((each ix).map rID)) none "" false)
       | none => (st, .bad)
   | ["rels", i] =>
-    if st.known then (st, .skip) else
+    if st.known then (st, .ok) else
     match parseID i, st.ix with
     | some id, some ix =>
       let model := match relationsOf ix id with
